@@ -544,7 +544,17 @@ func runForced(family string, dir string, seed uint64) forcedResult {
 				if w.Err != "" || cold.Err != "" || hitsString(w.Hits) != hitsString(cold.Hits) {
 					e.notes = append(e.notes, fmt.Sprintf("after the writer finished its batches (%s), query %s: warm answer %.400s (err %q) ; cold answer (fresh shard on a copy of the file) %.400s (err %q)",
 						strings.Join(steps, ","), qs[i], hitsString(w.Hits), w.Err, hitsString(cold.Hits), cold.Err))
-					return normErr(w.Err + cold.Err + " differs"), hits
+					short := func(o searchOut) string {
+						if o.Err != "" {
+							return "error " + normErr(o.Err)
+						}
+						var ids []string
+						for _, h := range o.Hits {
+							ids = append(ids, h.Id.String()[:8]+"/"+h.Dist)
+						}
+						return fmt.Sprintf("%d hits [%s]", len(o.Hits), strings.Join(ids, " "))
+					}
+					return fmt.Sprintf("query %s: warm %s, fresh shard on a copy of the file %s", qs[i], short(w), short(cold)), hits
 				}
 			}
 			return "", hits
